@@ -1,15 +1,282 @@
-import OpacusLean.Lemmas.RnnSeq
-/-! # C13 — DPLSTM / DPGRU / DPRNN are drop-in equivalents of the torch.nn recurrent layers -/
+import OpacusLean.Lemmas.RnnTranspose
+import OpacusLean.Lemmas.RnnCsl2
+import OpacusLean.Lemmas.RnnNames
+import OpacusLean.Lemmas.RnnCellEq
+set_option linter.unusedSimpArgs false
+/-! # C13 — DPLSTM / DPGRU / DPRNN are drop-in equivalents of the torch.nn recurrent layers
+
+Model: `OpacusLean/Model/Rnn.lean` (time loops, layer × direction loop, permutations,
+`compute_seq_lengths`; the cell is a parameter) and `Model/RnnCells.lean` (numeric cells, parameter
+names).  The *spec* is the documented `torch.nn` semantics: each sequence on its own,
+`h_t = cell(x_t, h_{t-1})` over its own length (`scanCell`), backwards for the reverse direction,
+layers stacked on the concatenated outputs (`specForward`).  All statements are for an arbitrary
+cell, arbitrary feature / state types, unbounded `T`, `B`, number of layers.
+
+`seqOf steps i` is sequence `i` of a packed (or time-major padded) batch; `RowOf hs j r` says that
+`r` is row `j` of every `[B, ·]` tensor in `hs`; `none` results mean "the code raises". -/
 namespace Opacus.C13
 open Opacus.Rnn
-variable {X S : Type}
+variable {X V S : Type}
 
-/-- forward direction of the packed time loop (batch shrinking): for every row `i` the states the
-loop produces are the per-sequence recurrence over that row's own sequence -/
+/-! ## one direction of one layer -/
+
+/-- (promoted spike) forward direction of the packed time loop, batch shrinking: the states of row `i`
+are the per-sequence recurrence over that row's own sequence -/
 theorem packed_forward_dir_refines_spec (cell : X → S → S) (h0 : List S) (xs : List (List X))
     (hp : (xs.map List.length).Pairwise (· ≥ ·)) (hb : ∀ x ∈ xs, x.length ≤ h0.length)
     (i : Nat) (s : S) (hs : h0[i]? = some s) :
     seqOf (scanSteps (stepPacked cell h0) h0 xs) i = scanCell cell s (seqOf xs i) :=
   (packed_fwd_scan cell h0 xs h0 hp hb).2 i s hs
+
+/-- reverse direction of the packed time loop (`reversed(x)`, batch growing, rows `h_0[prev:cur]`
+appended in the `delta > 0` branch, outputs reversed back): row `i` is the recurrence run backwards
+over its own sequence, started from *its own* `h_0` row at its own last element -/
+theorem packed_reverse_dir_refines_spec (cell : X → S → S) (h0 : List S) (xs : List (List X))
+    (hp : (xs.map List.length).Pairwise (· ≥ ·)) (hb : ∀ x ∈ xs, x.length ≤ h0.length)
+    (i : Nat) (s : S) (hs : h0[i]? = some s) :
+    seqOf (scanSteps (stepPacked cell h0) h0 xs.reverse).reverse i =
+      (scanCell cell s (seqOf xs i).reverse).reverse := by
+  have hb' : ∀ y ∈ xs.reverse, y.length ≤ h0.length := fun y hy => hb y (List.mem_reverse.mp hy)
+  have hpx : (xs.reverse.map List.length).Pairwise (· ≤ ·) := by
+    rw [List.map_reverse, List.pairwise_reverse]; exact hp
+  rw [scanSteps_packed_h0 cell h0 xs.reverse hb', seqOf_reverse,
+    (packed_grow_scan cell h0 xs.reverse [] hpx hb' (by simp)).2 i s (by simpa [virt] using hs), seqOf_reverse]
+
+/-- `forward_layer(is_packed=True)`, both directions, including `h_last` gathered through
+`compute_seq_lengths`: outputs and last state of every row are those of the per-sequence spec -/
+theorem packed_layer_refines_spec (B : Nat) (rest : List Nat) (hp : (B :: rest).Pairwise (· ≥ ·))
+    (cell : X → S → S) (h0 : List S) (x : List (List X)) (rev : Bool)
+    (h0len : h0.length = B) (hx : x.map List.length = B :: rest) :
+    ∃ o last, layerPacked B cell h0 x rev = some (o, last) ∧ o.map List.length = B :: rest ∧
+      last.length = B ∧ ∀ i s, h0[i]? = some s →
+        seqOf o i = (specDir cell s (seqOf x i) rev).1 ∧ last[i]? = some (specDir cell s (seqOf x i) rev).2 :=
+  layerPacked_refines B rest hp cell h0 x rev h0len hx
+
+/-- `forward_layer(is_packed=False)`, both directions (outputs flipped back, states not) -/
+theorem padded_layer_refines_spec (B T' : Nat)
+    (cell : X → S → S) (h0 : List S) (x : List (List X)) (rev : Bool)
+    (h0len : h0.length = B) (hx : x.map List.length = B :: List.replicate T' B) :
+    ∃ o last, layerPadded cell h0 x rev = some (o, last) ∧ o.map List.length = B :: List.replicate T' B ∧
+      last.length = B ∧ ∀ i s, h0[i]? = some s →
+        seqOf o i = (specDir cell s (seqOf x i) rev).1 ∧ last[i]? = some (specDir cell s (seqOf x i) rev).2 :=
+  layerPadded_refines B T' cell h0 x rev h0len hx
+
+/-! ## the whole `forward` -/
+
+/-- **packed_refines_spec**.  `forward` on a well-formed `PackedSequence` (batch sizes non-increasing,
+`data` of matching length, `sorted/unsorted_indices` both `None` or mutually inverse permutations),
+`L ≥ 1` layers, uni- or bidirectional, initial state absent or of shape `[L·P, B, ·]`: the call
+succeeds; the output data split by `batch_sizes` holds, for the user's sequence `j` (packed at
+position `i`), the spec outputs of that sequence, and row `j` of `h_n` (and `c_n`) is the spec's
+final states – where the spec is fed the user's own initial-state rows `init[·][j]`. -/
+theorem packed_refines_spec (cfg : Cfg V S) (bidir : Bool) (L : Nat) (hLpos : 0 < L)
+    (cells : List (V → S → S)) (hcells : (if bidir then 2 else 1) * L ≤ cells.length)
+    (data : List V) (B : Nat) (rest : List Nat) (hp : (B :: rest).Pairwise (· ≥ ·))
+    (hdata : data.length = (B :: rest).sum)
+    (sIdx uIdx : Option (List Nat)) (hperm : PermOK B sIdx uIdx)
+    (init : Option (List (List S)))
+    (hinit : ∀ h0s, init = some h0s →
+      h0s.length = (if bidir then 2 else 1) * L ∧ ∀ h ∈ h0s, h.length = B) :
+    ∃ out hn x o, forwardPacked cfg bidir L cells data (B :: rest) sIdx uIdx init = some (out, hn) ∧
+      splitBy data (B :: rest) = some x ∧ splitBy out (B :: rest) = some o ∧
+      hn.length = (if bidir then 2 else 1) * L ∧ (∀ h ∈ hn, h.length = B) ∧
+      ∀ j i s0, j < B → posOf uIdx j i → InitRow init j s0 →
+        ∃ so sf, specForward cfg bidir L cells s0 (seqOf x i) = some (so, sf) ∧
+          seqOf o i = so ∧ RowOf hn j sf := by
+  obtain ⟨x, hx⟩ := splitBy_exists (B :: rest) data hdata
+  obtain ⟨hxsh, _⟩ := splitBy_shape _ _ _ hx
+  obtain ⟨h0s, hh0, hh0len, hh0B, hh0row⟩ :=
+    initStates_ok cfg L (if bidir then 2 else 1) B sIdx uIdx hperm init hinit
+  obtain ⟨o, hs, hloop, hosh, hslen, hsB, hspec⟩ :=
+    layersLoop_refines cfg (layerPacked B) B (B :: rest) (layerPacked_refines B rest hp) bidir cells h0s hh0B
+      L 0 x [] hxsh (by simpa using hcells) (by simp [hh0len])
+  obtain ⟨hn, hfin, hnlen, hnB, hnrow⟩ := finalPerm_ok sIdx uIdx hperm hs (hsB (by simp))
+  refine ⟨o.flatten, hn, x, o, ?_, hx, ?_, ?_, hnB, ?_⟩
+  · have hL0 : L ≠ 0 := by omega
+    simp [forwardPacked, hx, hL0, hh0, hloop, hfin]
+  · rw [← hosh]; exact splitBy_flatten o
+  · rw [hnlen, hslen]; simp
+  · intro j i s0 hj hpos hrow
+    obtain ⟨so, sf, hsl, hso, hsf⟩ := hspec i _ [] (hh0row j i s0 hj hpos hrow) (by simp [RowOf])
+    exact ⟨so, sf, by simpa [specForward] using hsl, hso, hnrow j i sf hpos hsf⟩
+
+
+/-- **padded_refines_spec**.  `forward` on a padded `[T, B, ·]` (or `[B, T, ·]`, `batch_first`) tensor,
+`T ≥ 1`, `B ≥ 1`: output has the input's layout, and for every `j` sequence `j` of the output /
+row `j` of the final states is the spec on sequence `j` of the input. -/
+theorem headD_length_of_shape {α : Type} {x : List (List α)} {B : Nat} {rest : List Nat}
+    (h : x.map List.length = B :: rest) : (x.headD []).length = B := by
+  cases x with
+  | nil => simp at h
+  | cons r x => simp at h; simp [h.1]
+
+theorem padded_refines_spec (cfg : Cfg V S) (bidir : Bool) (L : Nat) (hLpos : 0 < L)
+    (cells : List (V → S → S)) (hcells : (if bidir then 2 else 1) * L ≤ cells.length)
+    (batchFirst : Bool) (input : List (List V)) (B T' : Nat) (hB : 0 < B)
+    (hshape : input.map List.length =
+      if batchFirst then List.replicate B (T' + 1) else List.replicate (T' + 1) B)
+    (init : Option (List (List S)))
+    (hinit : ∀ h0s, init = some h0s →
+      h0s.length = (if bidir then 2 else 1) * L ∧ ∀ h ∈ h0s, h.length = B) :
+    ∃ out hn, forwardPadded cfg bidir L cells batchFirst input init = some (out, hn) ∧
+      out.map List.length = input.map List.length ∧
+      hn.length = (if bidir then 2 else 1) * L ∧ (∀ h ∈ hn, h.length = B) ∧
+      ∀ j s0, j < B → InitRow init j s0 →
+        ∃ so sf, specForward cfg bidir L cells s0 (padSeq batchFirst input j) = some (so, sf) ∧
+          padSeq batchFirst out j = so ∧ RowOf hn j sf := by
+  -- the time-major view
+  obtain ⟨x, hxdef, hxsh, hxseq⟩ : ∃ x, x = (if batchFirst then transpose input else input) ∧
+      x.map List.length = B :: List.replicate T' B ∧
+      ∀ j, j < B → seqOf x j = padSeq batchFirst input j := by
+    refine ⟨_, rfl, ?_, ?_⟩
+    · cases batchFirst
+      · simpa [List.replicate_succ] using hshape
+      · simp only [if_true] at hshape ⊢
+        rw [shape_transpose hB hshape, List.replicate_succ]
+    · intro j hj
+      cases batchFirst
+      · simp [padSeq]
+      · simp only [if_true] at hshape ⊢
+        have hlen : input.length = B := by have := congrArg List.length hshape; simpa using this
+        have hrow : input[j]? = some (input[j]'(by omega)) := List.getElem?_eq_getElem (by omega)
+        rw [seqOf_transpose hB hshape hrow]
+        simp [padSeq, hrow]
+  have hBx : (x.headD []).length = B := headD_length_of_shape hxsh
+  obtain ⟨h0s, hh0, hh0len, hh0B, hh0row⟩ :=
+    initStates_ok cfg L (if bidir then 2 else 1) B none none (by simp [PermOK]) init hinit
+  obtain ⟨o, hs, hloop, hosh, hslen, hsB, hspec⟩ :=
+    layersLoop_refines cfg layerPadded B (B :: List.replicate T' B) (layerPadded_refines B T') bidir cells h0s hh0B
+      L 0 x [] hxsh (by simpa using hcells) (by simp [hh0len])
+  have hBo : (o.headD []).length = B := headD_length_of_shape hosh
+  refine ⟨if batchFirst then transpose o else o, hs, ?_, ?_, ?_, hsB (by simp), ?_⟩
+  · have hL0 : L ≠ 0 := by omega
+    simp only [forwardPadded, ← hxdef, hBx, hL0, if_false, hh0, hloop]
+  · cases batchFirst
+    · simp only [Bool.false_eq_true, if_false] at hshape hxdef ⊢
+      rw [hosh, hshape, List.replicate_succ]
+    · simp only [if_true] at hshape ⊢
+      rw [hshape]
+      exact shape_transpose (A := T' + 1) (T := B) (by omega) (by rw [hosh, List.replicate_succ])
+  · rw [hslen]; simp
+  · intro j s0 hj hrow
+    obtain ⟨so, sf, hsl, hso, hsf⟩ := hspec j _ [] (hh0row j j s0 hj rfl hrow) (by simp [RowOf])
+    refine ⟨so, sf, ?_, ?_, hsf⟩
+    · rw [← hxseq j hj]; simpa [specForward] using hsl
+    · rw [← hso]
+      cases batchFirst
+      · simp [padSeq]
+      · simp [padSeq, transpose_getElem? hBo hj]
+
+
+/-! ## `compute_seq_lengths` -/
+
+/-- `compute_seq_lengths(pack_padded_sequence(·, lens).batch_sizes) = lens` for non-increasing positive `lens` -/
+theorem seq_lengths_roundtrip {lens : List Nat} (hne : lens ≠ []) (hp : lens.Pairwise (· ≥ ·))
+    (hpos : ∀ l ∈ lens, 0 < l) : computeSeqLengths (batchSizes lens) = some lens :=
+  computeSeqLengths_batchSizes hne hp hpos
+
+/-- on the flipped (non-decreasing) batch sizes of the reverse pass every "length" is `T`, i.e. `h_last`
+is read from the last step, and there are `B` = (largest batch size) of them -/
+theorem seq_lengths_reversed (b : Nat) (bs : List Nat) (hp : (b :: bs).Pairwise (· ≤ ·)) :
+    computeSeqLengths (b :: bs) = some (List.replicate ((b :: bs).getLast (by simp)) (bs.length + 1)) :=
+  computeSeqLengths_nonDec b bs hp
+
+/-- whatever the batch sizes, at least `batch_sizes[0]` lengths are produced: no row of the `h_last`
+buffer keeps its `torch.zeros` initialisation -/
+theorem seq_lengths_cover (b : Nat) (bs : List Nat) (lens : List Nat)
+    (h : computeSeqLengths (b :: bs) = some lens) : b ≤ lens.length := by
+  cases bs with
+  | nil => simp [computeSeqLengths] at h; subst h; simp
+  | cons c cs =>
+    simp [computeSeqLengths] at h; subst h
+    simpa using length_cslAux_ge 0 b (c :: cs)
+
+/-! ## permutations -/
+
+/-- re-ordering by `sorted_indices` and then by `unsorted_indices` is the identity -/
+theorem unsort_sort_id {α : Type} {B : Nat} {s u : List Nat} (hp : PermOK B (some s) (some u))
+    (xs : List α) (hx : xs.length = B) :
+    ∃ ys, applyPerm xs (some s) = some ys ∧ applyPerm ys (some u) = some xs :=
+  unsort_sort_id' hp xs hx
+
+/-! ## `state_dict` -/
+
+/-- for every number of layers, uni/bidirectional, with/without bias (including the stray `[]`
+component the rename map gets for `bias=False`): the DP layer's `state_dict` keys are exactly
+torch's `_flat_weights_names` -/
+theorem state_dict_keys_eq_torch (L : Nat) (bidir bias : Bool) :
+    (stateDictKeys L bidir bias).Perm (torchKeys L bidir bias) :=
+  stateDictKeys_perm_torchKeys L bidir bias
+
+/-- every key is an alias of the cell parameter with the same (layer, direction, matrix, component)
+and has torch's shape – so checkpoints load in both directions -/
+theorem state_dict_alias_and_shape (I H G L : Nat) (bidir bias : Bool) (k : PName)
+    (hk : k ∈ stateDictKeys L bidir bias) :
+    ∃ p, p ∈ moduleParams L bidir bias ∧ k = toFlat p ∧ aliasOf (renameMap L bidir bias) k = some p ∧
+      dpShape I H G bidir p = torchShape I H G bidir k := by
+  rw [stateDictKeys_eq] at hk
+  obtain ⟨p, hp, rfl⟩ := List.mem_map.mp hk
+  exact ⟨p, hp, rfl, aliasOf_stateDictKey hp, shape_eq I H G bidir hp⟩
+
+/-! ## cell equations (gate order), activations opaque -/
+section Cells
+variable {R : Type} [Add R] [Mul R] [Sub R] [Zero R] [One R] [Act R]
+
+theorem rnn_cell_equation (relu : Bool) (w : CellW R) (x h : List R) (j : Nat) (a b : R)
+    (ha : (linear w.wih w.bih x)[j]? = some a) (hb : (linear w.whh w.bhh h)[j]? = some b) :
+    (rnnCell relu w x h)[j]? = some ((if relu then Act.relu else Act.tanh) (a + b)) :=
+  rnn_cell_eq relu w x h j a b ha hb
+
+theorem lstm_cell_equations (H : Nat) (w : CellW R) (x h c : List R) (j : Nat) (hj : j < H) (gi gf gg go cj : R)
+    (hi : (gatesOf w x h)[j]? = some gi) (hf : (gatesOf w x h)[H + j]? = some gf)
+    (hg : (gatesOf w x h)[2 * H + j]? = some gg) (ho : (gatesOf w x h)[3 * H + j]? = some go)
+    (hc : c[j]? = some cj) :
+    (lstmCell H w x (h, c)).2[j]? = some (Act.sigmoid gf * cj + Act.sigmoid gi * Act.tanh gg) ∧
+    (lstmCell H w x (h, c)).1[j]? =
+      some (Act.sigmoid go * Act.tanh (Act.sigmoid gf * cj + Act.sigmoid gi * Act.tanh gg)) :=
+  lstm_cell_eq H w x h c j hj gi gf gg go cj hi hf hg ho hc
+
+theorem gru_cell_equation (H : Nat) (w : CellW R) (x h : List R) (j : Nat) (hj : j < H)
+    (xr xz xn hr hz hn hj' : R)
+    (h1 : (linear w.wih w.bih x)[j]? = some xr) (h2 : (linear w.wih w.bih x)[H + j]? = some xz)
+    (h3 : (linear w.wih w.bih x)[2 * H + j]? = some xn)
+    (h4 : (linear w.whh w.bhh h)[j]? = some hr) (h5 : (linear w.whh w.bhh h)[H + j]? = some hz)
+    (h6 : (linear w.whh w.bhh h)[2 * H + j]? = some hn) (h7 : h[j]? = some hj') :
+    (gruCell H w x h)[j]? =
+      some ((1 - Act.sigmoid (xz + hz)) * Act.tanh (xn + Act.sigmoid (xr + hr) * hn)
+            + Act.sigmoid (xz + hz) * hj') :=
+  gru_cell_eq H w x h j hj xr xz xn hr hz hn hj' h1 h2 h3 h4 h5 h6 h7
+
+end Cells
+
+/-! ## non-vacuity: the hypotheses are satisfiable and the conclusions are not trivial -/
+
+/-- a toy instance over ℕ: `cell x s = x + 2·s`, outputs concatenated by addition -/
+def toyCfg : Cfg Nat Nat := ⟨id, (· + ·), 0⟩
+def toyCell (k : Nat) : Nat → Nat → Nat := fun x s => x + k * s
+
+example : PermOK 2 (some [1, 0]) (some [1, 0]) :=
+  ⟨rfl, rfl, by decide, by decide, fun j hj => match j, hj with
+    | 0, _ => ⟨1, rfl, rfl⟩
+    | 1, _ => ⟨0, rfl, rfl⟩⟩
+
+/-- two sequences `[1,3,5]` and `[2,4]` packed (`batch_sizes = [2,2,1]`), unsorted by the user,
+bidirectional, two layers, given initial states: the model's result, computed by the kernel -/
+example :
+    forwardPacked toyCfg true 2 [toyCell 2, toyCell 3, toyCell 1, toyCell 2] [1, 2, 3, 4, 5] [2, 2, 1]
+      (some [1, 0]) (some [1, 0]) (some [[10, 20], [1, 2], [0, 1], [3, 0]])
+      = some ([1287, 212, 765, 161, 644], [[48, 175], [23, 109], [100, 458], [167, 1136]]) := by decide
+
+/-- … and the spec on the longer sequence alone (user index 1 ↦ packed position 0, initial rows
+`init[·][1]`) gives the same outputs `[1287, 765, 644]` and the final states of column 1 -/
+example :
+    specForward toyCfg true 2 [toyCell 2, toyCell 3, toyCell 1, toyCell 2] (some [20, 2, 1, 0]) [1, 3, 5]
+      = some ([1287, 765, 644], [175, 109, 458, 1136]) := by decide
+
+example : computeSeqLengths (batchSizes [3, 2, 2, 1]) = some [3, 2, 2, 1] := by decide
+example : computeSeqLengths [1, 2, 2, 4] = some [4, 4, 4, 4] := by decide
+example : stateDictKeys 1 true false =
+    [.flat .weight .ih 0 false, .flat .weight .hh 0 false, .flat .weight .ih 0 true, .flat .weight .hh 0 true] := by
+  decide
 
 end Opacus.C13
